@@ -15,7 +15,7 @@ TRUSTED = ["the broker's own publishes on stats/<node>/ (monitoring sink 'self',
            "authorization is the C03 model (Security.authorize) instantiated with the session's license; the broker theorems hold for every authorizer"]
 ASSUMPTIONS = ["requests are issued one at a time (histories, not schedules)"]
 CLAIM = {
-    "text": "Lean 4 theorems over the executable broker model (counters, trie, links, delivery) for every request history and every authorizer: the trie and the per-connection counters stay in sync (sync_inv), an accepted PUBLISH is delivered exactly to the connections holding an acknowledged, not yet removed matching subscription, once, minus the publisher under me=0, with channel and payload unchanged (publish_exact), a request that fails parsing or authorization changes nothing and is answered with an error (reject_noop). Tied to /repo by a differential run of a real broker.Service with clients over net.Pipe against the compiled model, request by request.",
+    "text": "Lean 4 theorems over the executable broker model (counters, trie, links, delivery) for every request history and every authorizer: the trie and the per-connection counters stay in sync (sync_inv), an accepted PUBLISH is delivered exactly to the connections holding an acknowledged, not yet removed matching subscription, once, minus the publisher under me=0, with channel and payload unchanged (publish_exact), a request that fails parsing or authorization changes nothing and is answered with an error (reject_noop); at history level the model refines the set A of acknowledged, not yet removed (connection, filter) pairs of an independent specification (Spec/Subscriptions.lean): after every well-formed history bookkeeping, index and A coincide (history_refines), the PUBLISH packets of an accepted publish are exactly one unchanged packet per open holder of a matching pair of A minus a self-excluded publisher (publish_history_exact / _iff), and a removed subscription receives nothing until re-added (removed_never_receives). Tied to /repo by a differential run of a real broker.Service with clients over net.Pipe against the compiled model, request by request.",
     "note": "Trusted: Lean kernel; harness (sequential clients, quiescence polling); C03 model as the authorizer instance.",
     "technique": "Lean 4 proof (invariant + refinement of the broker step function to the set of acknowledged subscriptions) + differential correspondence check model vs. real broker",
 }
